@@ -224,6 +224,10 @@ class ECCMan(object):
             msg_repaired = bytearray(msg_repaired)
             ecc_repaired = bytearray(ecc_repaired)
 
+        if self.algo == 1 or self.algo == 2: # unireedsolomon strips the leading null coefficients of the repaired codeword, so when it is entirely null the ecc comes back shorter than n-k: left pad it back to its full size
+            ecc_repaired = bytearray(_bytes(ecc_repaired))
+            ecc_repaired = bytearray(max(0, self.n-k-len(ecc_repaired))) + ecc_repaired
+
         if pad: # Strip the null bytes if we padded the message before decoding
             msg_repaired = msg_repaired[len(pad):len(msg_repaired)]
         return _bytes(msg_repaired), _bytes(ecc_repaired)
